@@ -688,6 +688,49 @@ def tier4():
     return out
 
 
+def lazy_hosts():
+    """every non-seeking context-free sized term of tiers 1 and 2 as a member that lazy parsing measures and skips instead of
+    parsing (LazyStruct member, Lazy member of a Struct, LazyArray element)"""
+    out = []
+    for x in tier1() + tier2(False):
+        a = attrs(x)
+        if a.ctxfree and a.extent in ("fixed", "zero") and not a.seeks:
+            out += [["LazyStruct", [["a", x], ["b", BYTE]]], ["Struct", [["a", ["Lazy", x]], ["b", BYTE]]], ["LazyArray", 2, x]]
+    return out
+
+
+def lenient_terminated():
+    """require=False terminated regions (an unterminated region is accepted; build always writes the terminator) where that is
+    representable: at top level, after a header, and inside a length-prefixed region - not inside fixed-size regions, which the
+    added terminator would overflow"""
+    out = []
+    kids = [["GreedyBytes"], ["GreedyString", "ascii"], ["GreedyString", "utf_16_le"], ["GreedyRange", BYTE], ["GreedyRange", I(2, False, "b")]]
+    for x in kids:
+        for term in (b"\x00", b"\x00\x00", b"\xff\x00", b"\x00\x00\x00"):
+            if x[0] == "GreedyString" and R.unit_of(x[1]) != len(term):
+                continue
+            if x[0] == "GreedyRange" and len(term) != (1 if x[1] == BYTE else 2):
+                continue    # the terminator is read in steps of its own length: elements of another size could spell it across a boundary
+            for cons in (True, False):
+                nt = ["NullTerminated", x, term, False, cons, False]
+                out.append(nt)
+                out.append(["Struct", [["h", BYTE], ["v", nt]]])
+                if cons:
+                    out.append(["Prefixed", BYTE, nt, False])
+                    out.append(["Struct", [["p", ["Prefixed", BYTE, nt, False]], ["t", BYTE]]])
+    return out
+
+
+def sequence_twins():
+    """every tier-4 Struct shape with only named members, as a Sequence with the same named members (a Sequence keeps named members
+    in the context like a Struct does; its value is the list of member values)"""
+    out = []
+    for t in tier4():
+        if t[0] == "Struct" and all(n is not None for n, _ in t[1]):
+            out.append(["Sequence", t[1]])
+    return out
+
+
 def kwargs_for(t):
     """keyword contexts for a term that references _params.k"""
     s = repr(t)
